@@ -361,9 +361,50 @@ def build_order(repo, spec_dir, canary=False):
                clauses=[Clause('order.comparator_is_len_lex', 'r == len_lex(a@, b@)', ['C10'])],
                extra_rules=[('R11', r'\ba\.len\(\)\.cmp\(&b\.len\(\)\)', 'vx_usize_cmp(vx_len(a), vx_len(b))', 'Ord for usize (exact), String::len (uninterpreted)'),
                             ('R11', r'\ba\.cmp\(b\)', 'vx_str_cmp(a, b)', 'Ord for String (uninterpreted total order)')])
+    # ---- the whole function: sort(); dedup(); sort_by(closure)
+    b.emit(open(spec_dir + '/order_sort.rs').read())
+    b.emit('''#[verifier::external_body] pub fn vx_sort(v: &mut Vec<String>) ensures permutation_of(texts(final(v)@), texts(old(v)@)), sorted_by_str(texts(final(v)@)) { unimplemented!() }
+#[verifier::external_body] pub fn vx_dedup(v: &mut Vec<String>) ensures deduped_from(texts(final(v)@), texts(old(v)@)) { unimplemented!() }
+#[verifier::external_body] pub fn vx_sort_by<F: Fn(&String, &String) -> Ordering>(v: &mut Vec<String>, f: F)
+    requires forall|a: &String, b: &String| f.requires((a, b))
+    ensures permutation_of(texts(final(v)@), texts(old(v)@)),
+            forall|i: int, j: int| 0 <= i < j < final(v)@.len() ==> #[trigger] in_order(f, final(v)@[i], final(v)@[j]) { unimplemented!() }
+pub open spec fn in_order<F: Fn(&String, &String) -> Ordering>(f: F, x: String, y: String) -> bool { exists|o: Ordering| #[trigger] f.ensures((&x, &y), o) && o != Ordering::Greater }''')
+    def sort_pre(t, log, w):
+        t2 = re.sub(r'\btest_cases\.sort\(\);', 'vx_sort(test_cases);', t)
+        t2 = re.sub(r'\btest_cases\.dedup\(\);', 'vx_dedup(test_cases);', t2)
+        if t2 != t: log.add('R19', w, 'v.sort(); / v.dedup();', 'vx_sort(v); / vx_dedup(v); -- std semantics as documented (permutation + non-decreasing; consecutive duplicates removed)')
+        m = re.search(r'\btest_cases\.sort_by\(\|(\w+), (\w+)\| ', t2)
+        if not m: raise X.LostAnchor('regexp.rs::sort: test_cases.sort_by(|a, b| ..)')
+        from vx import rustlex as L
+        po = t2.index('(', m.start() + len('test_cases.sort_by') - 1); pc = L.match_close(t2, po)
+        body = t2[m.end():pc]
+        log.add('R35', w, 'v.sort_by(closure)', 'vx_sort_by(v, closure): the closure keeps its text and gets parameter types and a checked contract')
+        a, b_ = m.group(1), m.group(2)
+        ls = t2.rfind('\n', 0, m.start()) + 1
+        ind = re.match(r'[ \t]*', t2[ls:]).group(0)
+        log.add('R29', w, 'vx_sort_by(v, CLOSURE)', 'let vx_f = CLOSURE; vx_sort_by(v, vx_f)  (the closure captures nothing; ghost code names it)')
+        return t2[:ls] + ind + 'let vx_f = |%s: &String, %s: &String| -> (vx_o: Ordering) ensures /*#order.comparator_is_len_lex_in_place#*/ vx_o == len_lex(%s@, %s@) { %s };\n' % (a, b_, a, b_, body.strip()) + t2[ls:m.start()] + 'vx_sort_by(test_cases, vx_f)' + t2[pc + 1:]
+    b.emit('pub struct RegExp { pub x: u8 }\nimpl RegExp {')
+    b.verified_fn('regexp.rs', 'sort', within=r"^impl<'a> RegExp<'a> \{", props=['C07'], fname='RegExp::sort', pre=sort_pre,
+                  extra_rules=[('R11', r'\ba\.len\(\)\.cmp\(&b\.len\(\)\)', 'vx_usize_cmp(vx_len(a), vx_len(b))', 'Ord for usize (exact), String::len (uninterpreted)'),
+                               ('R11', r'\ba\.cmp\(b\)', 'vx_str_cmp(a, b)', 'Ord for String (uninterpreted total order)')],
+                  clauses=[Clause('order.sort_yields_the_canonical_arrangement', 'strictly_sorted(texts(final(test_cases)@)) && texts(final(test_cases)@).to_set() == texts(old(test_cases)@).to_set()', ['C10'])],
+                  loops={99: [('order.comparator_is_len_lex_in_place', ['C10'], 'true')]},
+                  blocks=[('vx_dedup(test_cases);', 'before', '        let ghost t0 = texts(old(test_cases)@); let ghost t1 = texts(test_cases@);'),
+                          ('vx_sort_by(test_cases', 'before', '        let ghost t2 = texts(test_cases@); proof { lemma_perm_same_set(t1, t0); lemma_dedup_of_sorted(t2, t1); }', ('order.sort_yields_the_canonical_arrangement', ['C10'])),
+                          (None, 'fn_end', '''        proof {
+            let t3 = texts(test_cases@);
+            lemma_perm_same_set(t3, t2); lemma_perm_keeps_no_dups(t3, t2);
+            assert(sorted_by_len_lex(t3)) by {
+                assert forall|i: int, j: int| 0 <= i < j < t3.len() implies len_lex(#[trigger] t3[i], #[trigger] t3[j]) != Ordering::Greater by { assert(in_order(vx_f, test_cases@[i], test_cases@[j])); let o = choose|o: Ordering| #[trigger] vx_f.ensures((&test_cases@[i], &test_cases@[j]), o) && o != Ordering::Greater; }
+            }
+            lemma_sorted_no_dups_is_strict(t3);
+        }''', ('order.sort_yields_the_canonical_arrangement', ['C10']))])
+    b.emit('}')
     b.emit('} // verus!\nfn main() {}')
     b.trusted += ['String: Ord is a total order, Equal only on identical strings (axioms axiom_str_cmp_total / axiom_str_cmp_trans); std sort / dedup / sort_by do what their documentation says (sort_by with a strict total order yields the unique sorted arrangement)',
-                  'sort_by applies the closure as the comparator (closure plumbing dropped by the slice)']
+                  'std through three stand-ins (R19, R35): `sort()` returns a permutation that is non-decreasing in String\'s order, `dedup()` a subsequence with the same set of elements and no two adjacent elements equal, `sort_by(f)` a permutation that is non-decreasing with respect to f (the closure keeps its text and is checked against len_lex in place)']
     return b
 
 def build_splice(repo, spec_dir, canary=False):
